@@ -255,10 +255,11 @@ GhostNext(e, w) ==
         \* a releasable deployment key is remembered together with the number of IPs its app held at that moment: the
         \* "more IPs than replicas" condition is about that number, and a later release must find the same number
         cnt(m, k) == IF k.kind = "dp" THEN Cardinality({y \in DOMAIN m : HasPrefix(m[y].key, KeyPrefixOf(k))}) ELSE 0
-        rel == {[key |-> w.mem[ip].key, n |-> cnt(w.mem, w.mem[ip].key)] :
+        \* ... and with the uid the allocation carried: the observation belongs to that incarnation's allocation
+        rel == {[key |-> w.mem[ip].key, n |-> cnt(w.mem, w.mem[ip].key), uid |-> w.mem[ip].uid] :
                   ip \in {x \in DOMAIN w.mem : ~IsFree(w.mem[x]) /\ w.mem[x].key.pod # "" /\
                                                  ImmReleasable(w.mem, w.mem[x].key, w.sts, w.dp)}}
-    IN [g4 EXCEPT !.everRel = (g4.everRel \cup rel) \ (IF e.ev = "CreatePod" THEN {k \in g4.everRel : k.key.pod = e.pod} ELSE {}),
+    IN [g4 EXCEPT !.everRel = g4.everRel \cup rel,
                   !.win = WinNext(g, e)]
 
 StepViolations(e, w) ==
@@ -292,11 +293,14 @@ StepViolations(e, w) ==
            LET held == KeyIPs(mem, e.args.key) IN
            IF Len(e.args.ranges) = 0 THEN held # {}
            ELSE \E i \in 1..Len(e.args.ranges) : ToSet(e.args.ranges[i]) \cap held # {})
-    \cup V("ReserveBeforeFresh",            \* a deployment/pool replacement takes a reserved IP of its app, not a fresh one
+    \cup VT("ReserveBeforeFresh",           \* a deployment/pool replacement takes a reserved IP of its app, not a fresh one
            isStep /\ e.typ = "bind" /\ e.call = "AllocateMulti" /\ RetOk(e) /\ e.args.key.kind = "dp" /\ e.args.attr.policy # 0 /\
            e.args.key.pod \in DOMAIN ghost.filt /\
            \E ip2 \in ghost.filt[e.args.key.pod].reserve :
-               ip2 \in DOMAIN mem /\ mem[ip2].key = KeyPrefixOf(e.args.key) /\ e.args.subnet \in SubnetsOf(pools, ip2))
+               ip2 \in DOMAIN mem /\ mem[ip2].key = KeyPrefixOf(e.args.key) /\ e.args.subnet \in SubnetsOf(pools, ip2),
+           \* (the pod's key still held an IP when its filter ran -- left by the previous incarnation -- and lost it before the bind)
+           IF isStep /\ e.typ = "bind" /\ e.call = "AllocateMulti" /\ e.args.key.pod \in DOMAIN ghost.filt /\ ghost.filt[e.args.key.pod].own # {}
+             THEN "heldAtFilterLostBeforeBind" ELSE "")
     (* ---------------- C03 *)
     \cup V("ReleaseJustified",
            e.ev \notin {"Crash", "Restart"} /\ ~byApi /\ ~Has(e, "crashed") /\
@@ -309,7 +313,8 @@ StepViolations(e, w) ==
               \/ ~Gone(pods, k, mem[ip].uid, ip)                          \* still held by a live pod
               \/ pl = 2 \/ k.pool # ""                                  \* never / pool: API only
               \/ pl = 1 /\ Supports(k, 1) /\
-                 ~([key |-> k, n |-> IF k.kind = "dp" THEN Cardinality({y \in DOMAIN mem : HasPrefix(mem[y].key, KeyPrefixOf(k))}) ELSE 0] \in ghost.everRel
+                 ~([key |-> k, n |-> IF k.kind = "dp" THEN Cardinality({y \in DOMAIN mem : HasPrefix(mem[y].key, KeyPrefixOf(k))}) ELSE 0,
+                    uid |-> mem[ip].uid] \in ghost.everRel
                    \/ ImmReleasable(mem, k, sts, dp)))
     \cup V("NoLeakAtQuiescence",
            e.ev = "Quiesce" /\ w.alive /\
